@@ -46,6 +46,12 @@ def supplyEqOK (supply0 supplyNow ecoMinted rewards : Nat) (approved : List (Nat
   decide ((approved.map (·.1)).Nodup) &&
   decide (supplyNow = supply0 + ecoMinted + rewards + (approved.map (·.2)).sum)
 
+/-- In the wired application (ecosystem pool not a blocked address): whatever the block counted was
+    delivered to the ecosystem-pool address, and nothing of it stays in the module account —
+    independent of the bank's SendEnabled parameters, which govern user transfers only. -/
+def mintToEcoOK (cPrev cNow ecoPrev ecoNow modPrev modNow : Nat) : Bool :=
+  decide (ecoNow = ecoPrev + (cNow - cPrev)) && decide (modNow = modPrev) && decide (cPrev ≤ cNow)
+
 /-- a message creates nothing: total supply (per denom, as listed) before = after -/
 def txSupplyOK (before after : List Nat) : Bool := before == after
 
